@@ -1,4 +1,9 @@
-(* Extraction of the C01 model: ExtrOcamlBasic only, no Extract Constant. *)
+(* Extraction of the C01 model: ExtrOcamlBasic only, no Extract Constant.
+   The rewrite table C01Opt.v (the functions the C01_opt_*_sound theorems are about) is extracted as well: the driver
+   applies it to instances of every rule and tools/c01_rules.py compares the result with the rule bodies translated
+   from detail/expression_optimizers.hpp. *)
 Require Import ExtrOcamlBasic.
-From SharkV Require Import C01Model.
-Extraction "c01_model.ml" exec stmt_ok seval vden mden rd empty_env vsize mrows mcols.
+From SharkV Require Import C01Model C01Opt.
+Extraction "c01_model.ml" exec stmt_ok seval vden mden rd empty_env vsize mrows mcols
+  opt_vrange opt_mtrans opt_mrow opt_mdiag opt_mrange opt_mrows opt_vscale opt_mscale opt_mvprod opt_mmprod
+  opt_vunary opt_munary opt_fold_set.
